@@ -536,11 +536,17 @@ def gen_lp_rotation(r):
     for i in range(4):
         sub = r.sample(names, r.choice([1, 1, 2]))
         sp["cons"][f"c{i}"] = {"k": "s", "lhs": render_linear(r, sp, [(r.choice(POS), n) for n in sub]), "sense": r.choice(["<=", ">="]), "rhs": ["num", r.choice([0.5, 1.0, 2.0, 3.0])]}
+    for vec, vnames in [vh for vh in vec_handles(sp["vars"]) if vh[0][0] == "vec"][:1]:
+        # float coefficient array times the whole vector, written as >= (rows that get sign-flipped)
+        sp["cons"]["cw"] = {"k": "s", "lhs": ["lincomb", [r.choice(POS) for _ in vnames], vec], "sense": ">=", "rhs": ["num", r.choice([0.5, 1.0, 2.0])]}
+        sp["exprs"]["ow"] = ["lincomb", [r.choice(COEFS) for _ in vnames], vec]
     sp["expr_order"] = sorted(sp["exprs"])
     sp["con_order"] = sorted(sp["cons"])
     ops = [["new_model", 0, sp], [r.choice(["minimize", "maximize"]), 0, "o0"]]
     for c in r.sample(sorted(sp["cons"]), r.choice([1, 2, 2, 3])):
         ops.append(["subject_to", 0, c])
+    if "cw" in sp["cons"] and r.random() < 0.6:
+        ops.append(["subject_to", 0, "cw"])
     lpm = ["auto", "auto", "linprog", "highs-ds", "highs-ipm", "highs"]
     ops.append(["solve", 0, {"method": r.choice(lpm)}])
     for _ in range(r.randint(3, 8)):
@@ -686,6 +692,7 @@ def gen_c13(r, int_frac=0.0, strict_frac=0.0, maxlen=None):
             ops.append([r.choice(["read_variables", "read_n", "read_bounds", "repr", "summary", "read_variables"]), mid])
         else:
             a = {"method": r.choice(C13_METHODS)}
+            forced_retry = False
             if r.random() < strict_frac:
                 a["strict"] = True
             if strict_frac > 0 and r.random() < 0.08 and a["method"] in ("auto", "linprog", "highs", "highs-ds", "highs-ipm"):
@@ -701,7 +708,8 @@ def gen_c13(r, int_frac=0.0, strict_frac=0.0, maxlen=None):
             if r.random() < 0.15:
                 a["x0_prev"] = True
             cap_iterations(r, a)
-            if r.random() < 0.04 and a["method"] in ("SLSQP", "auto"):
+            forced_retry = r.random() < 0.07 and a["method"] in ("SLSQP", "auto")
+            if forced_retry:
                 # the peer makes SLSQP claim success at a point that violates a constraint: optyx
                 # retries with trust-constr; whatever it remembers about that must not outlive an edit
                 a["method"] = "SLSQP"
@@ -711,6 +719,13 @@ def gen_c13(r, int_frac=0.0, strict_frac=0.0, maxlen=None):
                 # a transient failure while the solve builds its caches (k-th compile call raises)
                 a["fault"] = {"site": "compile", "k": r.choice([1, 2, 3, 4, 5, 7]), "exc": r.choice(["MemoryError", "RecursionError", "ValueError", "KeyboardInterrupt"])}
             ops.append(["solve", mid, a])
+            if forced_retry and r.random() < 0.7:
+                e = r.choice(elems)
+                if attrs[e][2] != "binary":
+                    nb = (attrs[e][1] if attrs[e][1] is not None else 5.0) + r.choice([0.5, 1.0])
+                    ops.append(["set_ub", 0, e, nb])
+                    attrs[e][1] = nb
+                ops.append(["solve", mid, cap_iterations(r, {"method": "SLSQP"})])
     for mid in mids:
         if have_obj[mid]:
             ops.append(["solve", mid, cap_iterations(r, {"method": r.choice(C13_METHODS)})])
@@ -1654,7 +1669,7 @@ def gen_c06(r, tier="quick", c07=False):
             del sp["exprs"][g]
         sp["expr_order"] = sorted(sp["exprs"])
     else:
-        sp, meta = gen_pool(r, kinds=kinds, nobj=3, ncon=5, layout=r.choice(["A", "B", "C", "D", "E"]) if c07 else ("D" if r.random() < 0.12 else None))
+        sp, meta = gen_pool(r, kinds=kinds, nobj=3, ncon=5, layout=r.choice(["A", "B", "C", "D", "E"]) if c07 else ("D" if r.random() < 0.2 else None))
     inf = r.random() < (0.2 if c07 else 0.4)
     if inf:
         make_infeasible(r, sp)
